@@ -145,7 +145,7 @@ def _c08(tier):
     return [
         dict(name='fault-point-enumeration', leg='faultpoints', units=U(tier, 48, 500), opts=dict(oracles=['C08'], ref_budget_cap=U(tier, 45, 70), profile=P(
             p_bounds=0.6, p_restarts=0.6, p_nsamples=0.3, p_noise=0.2, p_growing=0.0, p_diag=0.3, maxfun_choices=[30, 45, 60], p_buggify=0.3, p_nanregion=0.0))),
-        dict(name='fault-point-enumeration-convex', leg='faultpoints', units=U(tier, 10, 80), opts=dict(oracles=['C08'], ref_budget_cap=U(tier, 14, 16), salt='convex', profile=P(
+        dict(name='fault-point-enumeration-convex', leg='faultpoints', units=U(tier, 10, 80) * 6, spot=False, opts=dict(oracles=['C08'], slices=6, ref_budget_cap=U(tier, 14, 16), salt='convex', profile=P(
             p_sets=1.0, p_restarts=0.4, p_growing=0.0, maxfun_choices=[12, 16, 25], p_buggify=0.0, p_nanregion=0.0, n_choices=[1, 2, 2, 3]))),
         dict(name='multi-fault-swarm', leg='swarm', units=U(tier, 500), opts=dict(per_unit=8, oracles=['C08'], profile=P(
             p_bounds=0.6, p_restarts=0.6, p_nsamples=0.3, p_noise=0.2, p_growing=0.0, p_diag=0.3, p_faults=1.0, maxfun_choices=BUDGETS_BIG))),
